@@ -228,6 +228,12 @@ def run_C14(tier):
                     p3 = '%s|%s%d|L%d' % (v, b, k, k)
                     J.append(Job('c-futex', 'starve', p3, 2, 0, (), defs, 'c-futex.t%d' % T))
             J.append(Job('c-binsem', 'starve', '%s|L%d|L%d' % (v, k, k), 2, 0, (), defs, 'c-binsem.t%d' % T))
+        # two reader victims: the only way to have two long waiters at once (readers are woken together); the shared
+        # MU_LONG_WAIT bit is cleared by the first to acquire and must be set again by the other when it queues again
+        J.append(Job('c-futex', 'starve', 'Vr|Vr|L%d' % k, 2 if q else 3, 0, (), defs, 'c-futex.t%d' % T))
+        J.append(Job('c-binsem', 'starve', 'Vr|Vr|L%d' % k, 2, 0, (), defs, 'c-binsem.t%d' % T))
+        if not q and T == 1:
+            J.append(Job('c-futex', 'starve', 'Vr|Vr|L%d|L%d' % (k, k - 1), 2, 0, (), defs, 'c-futex.t%d' % T))
         if not q:
             J.append(Job('c-futex', 'starve', 'V|L%d|L%d|L%d' % (k, k, k), 1, 0, (), defs, 'c-futex.t%d' % T))
     # the real threshold (30): adversarial strategies scripted as the zero-deviation schedule, plus every
